@@ -14,6 +14,12 @@ recs = []
 for tier in ("quick", "thorough") if "--thorough" in sys.argv else ("quick",):
     recs += bnd.campaign(tier, 0)["records"]
 nonmono = {r["case"]["opt"] for r in recs if r.get("non_monotone_at")}
+if "--scan" in sys.argv:          # several campaign seeds: a class is listed as monotone only if it never regressed in any of them
+    for sd in range(1, 8):
+        nonmono |= {r["case"]["opt"] for r in bnd.campaign("quick", sd)["records"] if r.get("non_monotone_at")}
+else:
+    prev = json.load(open(os.path.join(V, "expectations.json"))) if os.path.exists(os.path.join(V, "expectations.json")) else {}
+    nonmono |= set(prev.get("non_monotone_observed", []))
 elitist = sorted(c for c, v in el.items() if v[0] and c not in nonmono)
 dropped = sorted(c for c, v in el.items() if v[0] and c in nonmono)
 pairs = {}
@@ -23,7 +29,8 @@ for r in recs:
         pairs.setdefault((c["opt"], c["kind"]), []).append(bool(r.get("exc")))
 failing = sorted([list(k) for k, v in pairs.items() if all(v)])
 known_exc = sorted({(r["case"]["opt"], r["exc"]["type"]) for r in recs if r.get("exc") and r["case"]["kind"] in bnd.CONT})
-out = {"C12_excluded": excluded, "elitist": elitist, "structurally_elitist_but_not_monotone_in_campaign": dropped,
+mono = sorted(c for c in el if c not in nonmono and c not in elitist)
+out = {"C12_excluded": excluded, "elitist": elitist, "monotone_in_campaign_not_structural": mono, "non_monotone_observed": sorted(nonmono), "structurally_elitist_but_not_monotone_in_campaign": dropped,
        "C06_intcoded_failing_pairs": failing, "C06_known_exceptions": [list(x) for x in known_exc]}
 json.dump(out, open(os.path.join(V, "expectations.json"), "w"), indent=1)
 print("C12 excluded", excluded); print("elitist", len(elitist), "dropped (non-monotone)", dropped); print("failing int-coded pairs", len(failing)); print("known exc", known_exc)
